@@ -123,7 +123,15 @@ public:
      * @brief Initialize the payload to zero.
      *
      */
+#ifdef YAKUSHIMA_VERIF
+    void init_lv() {
+        YAKUSHIMA_VERIF_PRE(k_store, o_lv, &child_or_v_);
+        YAKUSHIMA_VERIF_POST(k_store, o_lv, &child_or_v_, kValPtrFlag, 1);
+        child_or_v_ = kValPtrFlag;
+    }
+#else
     void init_lv() { child_or_v_ = kValPtrFlag; }
+#endif
 
     /**
      * @details This is move process.
@@ -133,6 +141,8 @@ public:
         /**
          * This object in this function is not accessed concurrently, so it can copy assign.
          */
+        YAKUSHIMA_VERIF_PRE(k_store, o_lv, &child_or_v_);
+        YAKUSHIMA_VERIF_POST(k_store, o_lv, &child_or_v_, nlv->child_or_v_, 1);
         *this = *nlv;
     }
 
@@ -156,6 +166,7 @@ public:
 
         // store the given value
         const auto ptr = reinterpret_cast<uintptr_t>(new_value); // NOLINT
+        YAKUSHIMA_VERIF_POST(k_store, o_lv, &child_or_v_, ptr, 1);
         storeReleaseN(child_or_v_, ptr);
         if (created_value_ptr != nullptr) {
             auto* v_ptr = reinterpret_cast<value*>(child_or_v_); // NOLINT
@@ -169,6 +180,7 @@ public:
      */
     void set_next_layer(base_node* const new_next_layer) {
         auto ptr = reinterpret_cast<uintptr_t>(new_next_layer); // NOLINT
+        YAKUSHIMA_VERIF_POST(k_store, o_lv, &child_or_v_, ptr | kChildFlag, 1);
         storeReleaseN(child_or_v_, ptr | kChildFlag);
     }
 
